@@ -625,6 +625,23 @@ class SymEx:
                             target = f
                             cur = s2
                 if target is None:
+                    # an object with __enter__ / __exit__ (a class of the repository): enter now, exit after the body
+                    vals = self.ev(ce, cur, func)
+                    if len(vals) == 1 and isinstance(vals[0][1], New):
+                        cur, obj = vals[0]
+                        en = self.repo.lookup_method(obj.cls, '__enter__')
+                        ex = self.repo.lookup_method(obj.cls, '__exit__')
+                        if en is not None and ex is not None:
+                            self.depth += 1
+                            try:
+                                res = self.run(en, [obj], cur, with_self=True)
+                            finally:
+                                self.depth -= 1
+                            for c2, yv in res:
+                                if item.optional_vars is not None:
+                                    self.assign(item.optional_vars, yv if yv is not None else Const(None), c2, func)
+                                nxt.append((c2, exits + [('object', obj, ex)]))
+                            continue
                     raise AnalysisError('symex: unsupported context manager %s at %s line %d' % (norm(ce), _where(func), s.lineno))
                 m = target[1]
                 body = m.node.body
@@ -657,6 +674,17 @@ class SymEx:
                 cs = [(c2, rv)]
                 for m, tail, menv in reversed(exits):
                     n2 = []
+                    if m == 'object':
+                        # __exit__(None, None, None) on the normal path
+                        for c3, rv3 in cs:
+                            self.depth += 1
+                            try:
+                                for c4, _ in self.run(menv, [tail, Const(None), Const(None), Const(None)], c3, with_self=True):
+                                    n2.append((c4, rv3))
+                            finally:
+                                self.depth -= 1
+                        cs = n2
+                        continue
                     for c3, rv3 in cs:
                         c3.stack.append(c3.env)
                         c3.env = menv
@@ -1248,7 +1276,8 @@ class SymEx:
         params = init.params[1:]
         for n in own_nodes(init.node):
             if isinstance(n, ast.Assign) and any(is_self_attr(t, attr) for t in n.targets):
-                if isinstance(n.value, ast.Name) and n.value.id in params:
+                if isinstance(n.value, ast.Name) and n.value.id in params and not any(
+                        isinstance(x, ast.Name) and x.id == n.value.id and isinstance(x.ctx, ast.Store) for x in own_nodes(init.node)):
                     i = params.index(n.value.id)
                     if i < len(obj.args):
                         return obj.args[i]
@@ -1312,6 +1341,14 @@ class SymEx:
                         cur.env = saved
                     outs.append((cur, acc))
             return outs
+        if isinstance(e.func, ast.Call) and is_name(e.func.func, 'getattr') and len(e.func.args) == 2 and not e.func.keywords:
+            # getattr(x, <name known here>)(..) is x.<name>(..)
+            nm = self.ev(e.func.args[1], st, func)
+            if len(nm) == 1 and isinstance(nm[0][1], Const) and isinstance(nm[0][1].v, str) and nm[0][1].v.isidentifier():
+                e2 = ast.Call(func=ast.Attribute(value=e.func.args[0], attr=nm[0][1].v, ctx=ast.Load()), args=e.args, keywords=e.keywords)
+                ast.copy_location(e2, e)
+                ast.copy_location(e2.func, e)
+                return self.call(e2, nm[0][0], func)
         outs = []
         for s2, f in self.ev(e.func, st, func):
             states = [(s2, [])]
